@@ -81,6 +81,7 @@ type simWorld struct {
 	fwdErr  error
 	stDelay time.Duration
 
+	ifis []config.Interface
 	logs *lockedBuf
 	mem  *metricslite.Memory
 	mm   *Metrics
